@@ -184,26 +184,118 @@ def bandDirsAux : Nat → List Seg → List (List (Option Nat))
 /-- per segment, per point: the direction the point is solved with -/
 def bandDirs (segs : List Seg) : List (List (Option Nat)) := bandDirsAux 0 segs
 
+/-! ## what happens at Γ with a non-analytical term correction, and how group velocities are computed
+
+* `QpointsPhonon`: the user's `nac_q_direction` is applied at |q| < 1e-5 (OpenMP build: handed to the solver for all
+  q, which uses it only at Γ; serial build: `_get_dynamical_matrix`), and handed to `GroupVelocity.run` as
+  `perturbation` (first finite-difference / degenerate-perturbation direction; switches the site-symmetry average off
+  for *all* q of the call).
+* `BandStructure`: frequencies/eigenvectors use the segment's own direction (see `segDir`); group velocities come
+  from `GroupVelocity.run(path)` — no perturbation, dynamical matrix at Γ without any direction.
+* `Mesh`, `IterMesh`: no direction anywhere.
+* the dynamical-matrix object directly: whatever `q_direction` the caller passes. -/
+
+inductive GammaDir | none | user | segment
+deriving DecidableEq, Repr
+
+/-- direction with which frequencies / eigenvectors at Γ are computed -/
+def freqGammaDir (p : Path) (userDirGiven segThroughGamma : Bool) : GammaDir :=
+  match p with
+  | .qpoints | .direct => if userDirGiven then .user else .none
+  | .band => if segThroughGamma then .segment else .none
+  | .mesh | .iterMesh => .none
+
+/-- `perturbation` handed to the group-velocity object -/
+def gvPerturbation (p : Path) (userDirGiven : Bool) : GammaDir :=
+  match p with
+  | .qpoints => if userDirGiven then .user else .none
+  | _ => .none
+
+/-- group velocities are averaged over the site symmetry of q iff no perturbation direction was given -/
+def gvSymmetrized (p : Path) (userDirGiven : Bool) : Bool := gvPerturbation p userDirGiven == .none
+
+/-- does the path offer group velocities at all -/
+def offersGv (p : Path) : Bool := p != .iterMesh
+
+/-! ## the cached group-velocity object across calls
+
+`Phonopy` keeps one `GroupVelocity` object for `run_qpoints` / `run_band_structure` / `run_mesh`.  Its
+degeneracy-lifting direction `_directions[0]` is state: `GroupVelocity.run(q_points, perturbation)` sets it on
+*every* call — to the perturbation if one is given, back to the default (1,2,3) otherwise. -/
+
+/-- state of the cached object: the direction currently stored (`none` = the default direction) -/
+structure GvState where
+  dir0 : GammaDir
+deriving DecidableEq, Repr
+
+/-- one `GroupVelocity.run`: new state and the direction the call computes with -/
+def gvRun (perturbation : GammaDir) (_s : GvState) : GvState × GammaDir := (⟨perturbation⟩, perturbation)
+
+/-- a sequence of calls on one `Phonopy` instance: the directions the calls compute with -/
+def gvSequence : List GammaDir → GvState → List GammaDir
+  | [], _ => []
+  | p :: rest, s => (gvRun p s).2 :: gvSequence rest (gvRun p s).1
+
+/-! ## writers: which optional fields a file contains, per option set -/
+
+inductive Writer | qpointsYaml | qpointsHdf5 | meshYaml | meshHdf5 | bandYaml | bandHdf5
+deriving DecidableEq, Repr
+
+inductive Field | frequency | eigenvector | groupVelocity | dynamicalMatrix
+deriving DecidableEq, Repr
+
+/-- qpoints.py write_yaml/write_hdf5 (`_with_eigenvectors`, `_group_velocities is not None`, `_with_dynamical_matrices`);
+mesh.py (`_with_eigenvectors` / `_eigenvectors is not None`, `_group_velocities is not None`);
+band_structure.py (`_eigenvectors is not None` — also set by band connection —, `_group_velocities is not None`) -/
+def written (w : Writer) (o : Opts) : List Field :=
+  match w with
+  | .qpointsYaml | .qpointsHdf5 =>
+    [Field.frequency] ++ (if o.eigvecs then [Field.eigenvector] else []) ++ (if o.gv then [Field.groupVelocity] else [])
+      ++ (if o.dm then [Field.dynamicalMatrix] else [])
+  | .meshYaml | .meshHdf5 =>
+    [Field.frequency] ++ (if o.eigvecs then [Field.eigenvector] else []) ++ (if o.gv then [Field.groupVelocity] else [])
+  | .bandYaml | .bandHdf5 =>
+    [Field.frequency] ++ (if o.eigvecs || o.conn then [Field.eigenvector] else []) ++ (if o.gv then [Field.groupVelocity] else [])
+
+/-- the path whose result a writer serialises -/
+def Writer.path : Writer → Path
+  | .qpointsYaml | .qpointsHdf5 => .qpoints
+  | .meshYaml | .meshHdf5 => .mesh
+  | .bandYaml | .bandHdf5 => .band
+
+/-- optional fields present in a result row -/
+def rowFields (r : RowOut) : List Field :=
+  [Field.frequency] ++ (if r.eigvecs.isSome then [Field.eigenvector] else []) ++ (if r.gv.isSome then [Field.groupVelocity] else [])
+    ++ (if r.dm.isSome then [Field.dynamicalMatrix] else [])
+
 /-! ## band connection (estimate_band_connection) -/
 
 /-- one row of the greedy matching: scan `i = n-1 … 0`, skip taken columns, keep the first strictly
-larger overlap; `carry` is the Python variable `maxindex` left over from earlier rows -/
-def rowPick (row : List Rat) (taken : List Nat) (carry : Option Nat) : Option Nat :=
+larger overlap; `carry` is the Python variable `maxindex` left over from earlier rows; `init` is the initial
+`maxval` (`0` in the pinned text: a zero overlap is never chosen; `-1` in the repaired text) -/
+def rowPickI (init : Rat) (row : List Rat) (taken : List Nat) (carry : Option Nat) : Option Nat :=
   ((List.range row.length).reverse.foldl
     (fun (acc : Rat × Option Nat) i =>
       if taken.contains i then acc
       else if row.getD i 0 > acc.1 then (row.getD i 0, some i) else acc)
-    ((0 : Rat), carry)).2
+    (init, carry)).2
 
-def connOrderAux : List (List Rat) → List Nat → Option Nat → Option (List Nat)
+def connOrderAuxI (init : Rat) : List (List Rat) → List Nat → Option Nat → Option (List Nat)
   | [], taken, _ => some taken
   | row :: rest, taken, carry =>
-    match rowPick row taken carry with
+    match rowPickI init row taken carry with
     | none => none                       -- UnboundLocalError: `maxindex` never assigned
-    | some m => connOrderAux rest (taken ++ [m]) (some m)
+    | some m => connOrderAuxI init rest (taken ++ [m]) (some m)
 
-/-- `connection_order`; `none` = the Python raises -/
-def connOrder? (metric : List (List Rat)) : Option (List Nat) := connOrderAux metric [] none
+/-- `connection_order` of the pinned text (`maxval = 0`); `none` = the Python raises -/
+def connOrder? (metric : List (List Rat)) : Option (List Nat) := connOrderAuxI 0 metric [] none
+
+/-- `connection_order` of the repaired text (`maxval = -1`) -/
+def connOrderFixed? (metric : List (List Rat)) : Option (List Nat) := connOrderAuxI (-1) metric [] none
+
+/-- by revision flag -/
+def connOrderRev (repaired : Bool) (metric : List (List Rat)) : Option (List Nat) :=
+  if repaired then connOrderFixed? metric else connOrder? metric
 
 /-- `band_order = [connection_order[x] for x in prev_band_order]` -/
 def bandOrder (conn prev : List Nat) : List Nat := prev.map fun x => conn.getD x 0
